@@ -29,6 +29,7 @@ def message_case(draw, size_directed_share: int = 3, max_small: int = 12) -> Dic
         'multicast': draw(st.booleans()),
         'id': draw(st.sampled_from([0, 1, 0x1234, 0xFFFF])),
         'names': names,
+        'via_incoming': draw(st.sampled_from([False, False, False, True])),
     }
     case['q'] = draw(st.lists(gen.question(names), max_size=max_small if not response else 2))
     ans = draw(st.lists(gen.record(names), max_size=max_small))
@@ -280,14 +281,34 @@ def build_packets(case: Dict[str, Any], secs: Dict[str, List[Dict[str, Any]]]) -
     out = DNSOutgoing(flags, case['multicast'], case['id'])
     for q in secs['q']:
         out.add_question(DNSQuestion(q['name'], q['type'], q['cls'] | (0x8000 if q['qu'] else 0)))
+    inp = None
+    if case.get('via_incoming'):
+        # the other documented way to add an answer: add_answer(incoming_query, record) - the record goes in with its full TTL
+        # unless the query lists it as a known answer (this one lists nothing); the query arrived five seconds after the records
+        # were created
+        from zeroconf import DNSIncoming
+
+        inp = DNSIncoming(bytes(12), ('10.0.0.9', 5353), None, CREATED_BASE + 5000.0)
     for r in secs['an']:
         now, created = answer_now_created(r)
-        out.add_answer_at_time(make_record(r, created), now)
+        if inp is not None and now == 0:
+            out.add_answer(inp, make_record(r, created))
+        else:
+            out.add_answer_at_time(make_record(r, created), now)
     for r in secs['ns']:
         out.add_authorative_answer(make_record(r))
     for r in secs['ar']:
         out.add_additional_answer(make_record(r))
-    return out.packets()
+    first = out.packets()
+    # the finished message is what gets sent - more than once when an announcement or goodbye is repeated: asking for the datagrams
+    # again must give the same sequence
+    again = out.packets()
+    if again != first:
+        from .core import Violation
+
+        raise Violation('packets() called a second time on the same message returned a different datagram sequence',
+                        {'first': [len(p) for p in first], 'second': [len(p) for p in again]}, tag='packets-not-repeatable')
+    return first
 
 
 def all_names(secs: Dict[str, List[Dict[str, Any]]]) -> List[str]:
